@@ -6,11 +6,12 @@ import os
 import sys
 
 sys.path.insert(0, os.path.join(os.path.dirname(os.path.abspath(__file__)), '..'))
+import common
 from common import Check
 from pyfront import ir
 from props.t_C09 import TARGETS, SPH, CYL
 from harness import enga
-from harness.probes import Probe, dy
+from harness.probes import Probe, dy, lit
 
 OPS = ['grad', 'div', 'curl', 'laplacian', 'vector_laplacian']
 
@@ -57,6 +58,7 @@ def cart_expected(op, probes, xyz):
 
 
 def run_cases(ck, res, n_cases, n_interval):
+    n_atan2 = 3 if n_interval else 0
     torch = enga.import_repo()
     from neurodiffeq import operators as O
     r = ck.rng('cases')
@@ -177,6 +179,15 @@ def run_cases(ck, res, n_cases, n_interval):
         h = math.hypot(a, b)
         if not (enga.close(math.cos(t), b / h) and enga.close(math.sin(t), a / h) and -math.pi < t <= math.pi):
             ck.broke('correspondence-broken', 'atan2-contract', f'torch.atan2({a},{b}) = {t} violates the contract assumed by C09_conv')
+        # in-kernel: the concrete Atan2.atan2 of the unconditional theorems is what torch.atan2 computes (all quadrants and axes)
+        if res is not None and ci < n_atan2:
+            pts = [(a, b), (abs(a), 0.0), (-abs(a), 0.0), (0.0, -abs(b)), (0.0, abs(b)), (-abs(a), -abs(b)), (abs(a), -abs(b))]
+            for (ya, xb) in pts[:3] if ci else pts:
+                tv = float(torch.atan2(torch.tensor(ya), torch.tensor(xb)))
+                goals.append({'label': f'atan2({ya},{xb})', 'gen': None, 'require': 'From ND.lib Require Atan2.', 'value': tv,
+                              'goal': f'Rabs (Atan2.atan2 {lit(ya)} {lit(xb)} - ({common.float_lit(tv)})) <= 1/1000000000000',
+                              'proof': 'Proof. first [rewrite Atan2.atan2_right by lra | rewrite Atan2.atan2_left_up by lra | rewrite Atan2.atan2_left_down by lra '
+                                       '| rewrite Atan2.atan2_axis_up by lra | rewrite Atan2.atan2_axis_down by lra]; interval with (i_prec 90). Qed.'})
         # generated conversion terms vs implementation
         if res is not None and 'terms' in res.get('cartesian_to_spherical', {}):
             tm = res['cartesian_to_spherical']['terms']
@@ -230,7 +241,8 @@ def main():
     ck.finish(
         trusted_extra=['Interval (interval tactic) for in-kernel correspondence goals',
                        'specification side proofs/C09_spec.v (inverse-Jacobian Cartesian partials, frames), anchored by the jacobian_inverse theorems',
-                       'torch.atan2 modelled by its contract (cos/sin/range) as hypotheses; contract validated numerically each run, satisfiability not proved in Coq',
+                       'torch.atan2: the general conversion theorems assume only its contract (cos/sin/range); the contract is PROVED satisfiable for the concrete lib/Atan2.atan2, '
+                       'for which the theorems are unconditional; that torch.atan2 computes Atan2.atan2 (all quadrants, both axes) is checked in the kernel on sampled dyadic inputs each run',
                        'modelled not verified: IEEE-754 rounding, torch.autograd (= symbolic D)'],
         assumptions=['fields are function symbols of the three curvilinear coordinates with arbitrary jets', 'r <> 0, sin theta <> 0, rho <> 0'])
 
